@@ -695,6 +695,9 @@ def is_min(t, a, b):
     return False
 
 
+# generic robustness battery: renaming every local/parameter in these files must not change any verdict
+RENAME_LOCALS = ['src/pshmbuffer.c']
+
 SELFTEST = [
     dict(id="positions-before-lock", file="src/pshmbuffer.c", expect="C08.1", count=2,
          old="\tif (P_UNLIKELY (p_shm_lock (buf->shm, error) == FALSE))\n\t\treturn -1;\n\n\tmemcpy (&read_pos, (pchar *) addr + P_SHM_BUFFER_READ_OFFSET, sizeof (read_pos));\n\tmemcpy (&write_pos, (pchar *) addr + P_SHM_BUFFER_WRITE_OFFSET, sizeof (write_pos));\n",
